@@ -214,12 +214,19 @@ def explore(ctx, scn_cls, params, max_depth, max_dev=0, final_every=True,
                 results = pool.imap_unordered(
                     core._pool_entry, [(_expand_batch, t) for t in tasks])
             nxt = []
+            level = []
             for st, r in results:
                 if st == 'err':
                     raise core.HarnessError('explorer task failed:\n' + r)
                 if st == 'hang':
                     res.merge(core._hang_result(r))
                     continue
+                level.extend(r)
+            # process the level in a fixed order, whatever order the workers
+            # finished in: the representative history of a state (and with it
+            # every count) is then the same in every run
+            level.sort(key=lambda x: repr(x[0]))
+            for r in (level,):
                 for child, key, ev, viol, dev, nt in r:
                     transitions += 1
                     if nt:
